@@ -47,6 +47,9 @@ func TestVerifC07(t *testing.T) {
 	for _, same := range []bool{false, true} {
 		shapes = append(shapes, simIn{N: 3, WaitCount: 1, Failover: true, Fault: "crash_node", Target: 1, At: 2, Duration: 14, NextSame: same, Ticks: 40})
 	}
+	// the smallest cluster: one replica, automatic failover, the old master returns late or never
+	shapes = append(shapes, simIn{N: 2, WaitCount: 1, Failover: true, Fault: "crash_node", Target: 1, At: 2, Duration: 14, Ticks: 40},
+		simIn{N: 2, WaitCount: 1, Failover: true, Fault: "crash_node", Target: 1, At: 2, Duration: 1000, NextSame: true, Ticks: 40})
 	// ... and the old master never comes back: the successor has to finish the failover with what is left
 	shapes = append(shapes, simIn{N: 3, WaitCount: 1, Failover: true, Fault: "crash_node", Target: 1, At: 2, Duration: 1000, Ticks: 40},
 		simIn{N: 4, WaitCount: 2, Failover: true, Fault: "crash_node", Target: 1, At: 2, Duration: 1000, NextSame: true, Ticks: 40})
@@ -105,7 +108,20 @@ func TestVerifC07(t *testing.T) {
 				m.Violation("no iteration terminates the process", in, p)
 			}
 			for _, v := range simCheck(in, out) {
-				sig := map[string]any(nil)
+				// where the procedure was cut: which of its irreversible steps had been done
+				has := func(k string) bool {
+					for _, x := range out.CrashDone {
+						if x == k {
+							return true
+						}
+					}
+					return false
+				}
+				window := "other"
+				if has("SResetReplAll") && !has("DcsSet "+pathMasterNode) {
+					window = "the promoted node's replication configuration is reset, the master record not yet written"
+				}
+				sig := map[string]any{"hosts": in.N, "request": in.Fault, "window": window}
 				m.Violations = append(m.Violations, map[string]any{"clause": "after the managing process died at any point of a switchover the next manager finishes or rejects the request and the cluster ends with one writable master equal to the recorded one, replicas following it, no acknowledged transaction missing",
 					"input": in, "detail": fmt.Sprintf("crash before call %d (tick %d): %s", k, out.CrashedAt, v), "signature": sig})
 			}
